@@ -8,6 +8,7 @@ package c13
 import (
 	"crypto/sha256"
 	"encoding/hex"
+	"fmt"
 	"os"
 	"sort"
 	"strings"
@@ -18,10 +19,12 @@ import (
 )
 
 func init() {
-	reg.Register("c13.sweep", "C13", func(x *mon.Ctx) { sweep(x, false) })
+	reg.Register("c13.sweep", "C13", func(x *mon.Ctx) { sweep(x, selPlain) })
 	reg.Register("c13.built", "C13", func(x *mon.Ctx) { built(x, false) })
 	// the tier-dependent subset, for the dispatch configurations that select other SM4 mode implementations
-	reg.Register("c13.sweep.tiers", "C13", func(x *mon.Ctx) { sweep(x, true) })
+	reg.Register("c13.sweep.tiers", "C13", func(x *mon.Ctx) { sweep(x, selTiers) })
+	// authenticated hostile certificates: every DER-tree mutant re-signed by its issuer, then parsed and verified
+	reg.Register("c13.names", "C13", func(x *mon.Ctx) { sweep(x, selSigned) })
 	reg.Register("c13.built.tiers", "C13", func(x *mon.Ctx) { built(x, true) })
 	reg.Register("c13.modes", "C13", modes)
 }
@@ -115,16 +118,24 @@ func (r *runner) run(c *mon.Case, e *entry, ms []mutant) {
 	cf.report(c, r.st)
 }
 
-func sweep(x *mon.Ctx, tiersOnly bool) {
+// selections of the catalogue a sweep workload runs
+const (
+	selPlain  = iota // every entry point except the authenticated ones
+	selTiers         // the entry points whose code depends on the dispatch tier
+	selSigned        // the authenticated (re-signed) artefacts
+)
+
+func sweep(x *mon.Ctx, sel int) {
 	w, err := buildWorld(x.Seed)
 	if err != nil {
 		x.HarnessError("seed artefacts: %v", err)
 	}
+	tiersOnly := sel == selTiers
 	es := catalogue(w)
-	if tiersOnly {
+	{
 		var keep []*entry
 		for _, e := range es {
-			if e.tier {
+			if (sel == selTiers && e.tier && !e.signed) || (sel == selPlain && !e.signed) || (sel == selSigned && e.signed) {
 				keep = append(keep, e)
 			}
 		}
@@ -143,6 +154,7 @@ func sweep(x *mon.Ctx, tiersOnly bool) {
 	}
 	r := &runner{x: x, gs: newGuards(), st: newSites()}
 	setEditBreadth(x.Thorough())
+	setTextBreadth(x.Thorough())
 	allSubstitutions = x.Thorough()
 	x.Note(x.Workload+": %d entry points, %d artefacts, %d bytes of seeds (sha256 %s), %d DER edits per node", len(es), len(w.list), totalLen(w), worldDigest(w), editsPerNode)
 
@@ -171,7 +183,7 @@ func sweep(x *mon.Ctx, tiersOnly bool) {
 			c.End()
 		}
 		for _, kind := range []int{kTiny, kCross} {
-			if tiersOnly {
+			if tiersOnly || e.signed {
 				break // tiny inputs, type confusion and OID edits never reach the tier-dependent primitive: left to c13.sweep
 			}
 			n := positions(kind, nil, w)
@@ -192,8 +204,27 @@ func sweep(x *mon.Ctx, tiersOnly bool) {
 		}
 		for _, sn := range e.seeds {
 			a := w.get(sn)
-			for kind := kTrunc; kind <= kOID; kind++ {
-				if tiersOnly && kind == kOID {
+			if os.Getenv("C13_PROFILE") != "" {
+				var ps []string
+				for kind := kTrunc; kind <= kText; kind++ {
+					ps = append(ps, fmt.Sprintf("%s=%d", kindNames[kind], positions(kind, a, w)))
+				}
+				x.Note("positions entry=%s seed=%s len=%d: %s", e.name, sn, len(a.data), strings.Join(ps, " "))
+			}
+			for kind := kTrunc; kind <= kText; kind++ {
+				if tiersOnly && (kind == kOID || kind == kText) {
+					continue
+				}
+				if kind == kText && (!e.text && !e.signed || strings.HasPrefix(x.Variant, "race")) {
+					// the text-grammar mutator runs on the entry points that hand the bytes to the X.509 / CSR / CRL / PEM /
+					// escrow parsers directly; containers that embed certificates reach the same sub-parsers through
+					// smx509.ParseCertificate. The race variant is there for checkptr on the assembly-backed paths: string
+					// sub-parsers are plain Go
+					continue
+				}
+				if e.signed && (kind < kDER || kind == kOID && !x.Thorough()) {
+					// byte-level mutants of an authenticated artefact are not re-signed: the plain seeds cover them;
+					// the dispatch on OIDs happens while parsing (plain seeds), quick leaves it out here
 					continue
 				}
 				n := positions(kind, a, w)
@@ -216,7 +247,7 @@ func sweep(x *mon.Ctx, tiersOnly bool) {
 					c.End()
 				}
 			}
-			for k := 0; k < spliceCases; k++ {
+			for k := 0; k < spliceCases && !e.signed; k++ {
 				c := x.Begin("sweep entry=%s seed=%s(len %d) mutator=%s batch=%d of %d mutants drawn from the case PRNG", e.name, sn, len(a.data), kindNames[kSplice], k, spliceN)
 				if c == nil {
 					continue
